@@ -1,6 +1,7 @@
 package g4
 
 import (
+	_ "embed"
 	"os"
 	"path/filepath"
 	"strings"
@@ -115,4 +116,26 @@ func DerivableStrict(g *Grammar, dsl string) bool {
 func DerivableLenient(g *Grammar, dsl string) bool {
 	toks, errs := LexTypes(StripLenient(dsl))
 	return errs == 0 && g.Derives("main", toks)
+}
+
+//go:embed pinned/OpenFGAParser.g4
+var pinnedParserGrammar string
+
+var (
+	pinOnce sync.Once
+	pinG    *Grammar
+)
+
+// PinnedGrammar is the parser grammar as it stood at the pinned commit. Harness self-checks that
+// validate MY fault injectors (C09) use it, so that a change to the repository's .g4 cannot turn an
+// injected rule violation into "grammatical" and silence the check.
+func PinnedGrammar() *Grammar {
+	pinOnce.Do(func() {
+		g, err := ParseParserGrammar(pinnedParserGrammar)
+		if err != nil {
+			panic("pinned grammar: " + err.Error())
+		}
+		pinG = g
+	})
+	return pinG
 }
